@@ -146,14 +146,22 @@ def check(ctx):
     pp = assigns('parsed_path')
     ctx.inst('R2', pu, 'path-split', len(pp) == 1 and norm(pp[0].ast.value) == "parsed_uri.path.strip('/').split('/')", 'path fields = path.strip(/).split(/)')
     dr = assigns('datarate')
-    ctx.need(len(dr) == 4, 'parse_uri: datarate default + 3 table rows expected, found %d' % len(dr))
-    ctx.inst('R2', pu, 'default-rate', norm(dr[0].ast.value) == 'Crazyradio.DR_2MPS' and all(g.dominates(dr[0], r) for r in dr[1:] + [x for x in g.nodes if x.kind == 'return']), 'default data rate must be 2M')
-    tbl = {}
-    for n in dr[1:]:
+    ctx.need(len(dr) >= 4, 'parse_uri: datarate default + 3 table rows expected, found %d' % len(dr))
+    # rows = assignments guarded by a comparison of the rate field with a literal; every other assignment is a default and must be 2M
+    def row_lit(n):
         for f in g.facts_at(n):
             if f.op == '==' and f.pol and 'parsed_path[1]' in f.text:
-                lit = fold(f.left, sc) if isinstance(f.left, ast.Constant) else fold(f.right, sc)
-                tbl[lit] = norm(n.ast.value).split('.')[-1]
+                return fold(f.left, sc) if isinstance(f.left, ast.Constant) else fold(f.right, sc)
+        return None
+    rows = [n for n in dr if row_lit(n) is not None]
+    defaults = [n for n in dr if row_lit(n) is None]
+    first = [n for n in defaults if all(g.dominates(n, x) for x in g.nodes if x.kind == 'return')]
+    ctx.inst('R2', pu, 'default-rate', bool(first) and all(norm(n.ast.value) == 'Crazyradio.DR_2MPS' for n in defaults) and
+             all(g.dominates(first[0], r) for r in rows + [x for x in g.nodes if x.kind == 'return']) and
+             all(g.path_avoiding(r, [d]) is None for r in rows for d in defaults), 'default data rate must be 2M, set before (never after) the table rows')
+    tbl = {}
+    for n in rows:
+        tbl[row_lit(n)] = norm(n.ast.value).split('.')[-1]
         ctx.inst('R2', pu, 'rate-needs-field:' + norm(n.ast.value), fact_key('len(parsed_path) > 1', True) in g.fact_keys_at(n), 'rate is read only if the field exists')
     ctx.inst('R2', pu, 'rate-table', tbl == RATES, 'parse_uri rate table %s, expected %s' % (tbl, RATES))
     ad = assigns('address')
@@ -192,7 +200,8 @@ def check(ctx):
     for n in [n for n in gs.nodes if n.kind == 'stmt' and isinstance(n.ast, ast.Assign) and norm(n.ast.targets[0]) in ('datarate', 'dr_string')]:
         for f in gs.facts_at(n):
             if f.op == '==' and f.pol:
-                if norm(n.ast.targets[0]) == 'datarate' and 'uri_data.group(6)' in f.text:
+                sides = [norm(gs.resolve_local(n, f.left)), norm(gs.resolve_local(n, f.right))]     # the field may be bound to a local first
+                if norm(n.ast.targets[0]) == 'datarate' and 'uri_data.group(6)' in sides and any(isinstance(x, ast.Constant) for x in (f.left, f.right)):
                     lit = f.left.value if isinstance(f.left, ast.Constant) else f.right.value
                     fwd[lit] = norm(n.ast.value).split('.')[-1]
                 if norm(n.ast.targets[0]) == 'dr_string' and "f['datarate']" in f.text:
@@ -229,7 +238,7 @@ def check(ctx):
     prog = gsi.find(lambda q: method_call(q, 'set_address'))
     plain = [n for n in gsi.nodes if n.kind == 'if' and 'DEFAULT_ADDR' in norm(n.ast.test)]
     okb = len(prog) == 1 and fact_key('address is not None', True) in gsi.fact_keys_at(prog[0][0]) and len(plain) == 1 and \
-        canon_test(plain[0].ast.test) == fact_key('address is None or address == DEFAULT_ADDR')[0]
+        canon_test(plain[0].ast.test) == canon_test(ast.parse('address is None or address == DEFAULT_ADDR', mode='eval').body)
     ctx.inst('R4', si, 'addressless-uris-iff-default-address', okb,
              'URIs without an address field are reported exactly when no address or the default address was scanned (`address is None or address == DEFAULT_ADDR`), matching '
              'the `address is not None` test that programs the radio; a truthiness test mis-files address 0')
@@ -246,11 +255,12 @@ def check(ctx):
     ctx.inst('R5', gl, 'tries-classes-in-order', norm(lp[0].iter) == 'CLASSES', 'drivers are tried in CLASSES order')
     tr = [t for t in lp[0].body if isinstance(t, ast.Try)]
     ctx.need(len(tr) == 1, 'get_link_driver: try not found')
-    body = [norm(s) for s in tr[0].body]
+    body = [norm(s) for s in effective(tr[0].body) + effective(tr[0].orelse)]         # `else: return instance` is the same control flow
     ctx.inst('R5', gl, 'first-accepting-driver-wins', body == ['instance = %s()' % norm(lp[0].target), 'instance.connect(%s, %s, %s)' % tuple(gl.params[:3]), 'return instance'],
              'instantiate, connect with the URI and callbacks, return the instance; body %s' % body)
     hs = tr[0].handlers
-    ok = len(hs) == 1 and handler_names(hs[0]) == ['WrongUriType'] and [norm(s) for s in hs[0].body] == ['continue']
+    rest = effective(lp[0].body[lp[0].body.index(tr[0]) + 1:])
+    ok = len(hs) == 1 and handler_names(hs[0]) == ['WrongUriType'] and [norm(s) for s in effective(hs[0].body)] in (['continue'], []) and not rest and not tr[0].finalbody
     ctx.inst('R5', gl, 'continue-only-on-wrong-scheme', ok, 'only WrongUriType moves on to the next driver; handlers %s' % [handler_names(h) for h in hs])
     after = [norm(s) for s in gl.node.body[gl.node.body.index(lp[0]) + 1:]]
     ctx.inst('R5', gl, 'none-when-unclaimed', after == ['return None'], 'no driver found -> None')
